@@ -4,6 +4,7 @@ import (
 	"encoding/hex"
 	"encoding/json"
 	"fmt"
+	"github.com/bytedance/gopkg/lang/mcache"
 
 	"verif/gen"
 	"verif/mc"
@@ -36,6 +37,36 @@ func causeString(c ref.Cause) string {
 	return s
 }
 
+// allocIntercepted reports (once per process and skipper) whether the skipper's buffer allocations go through the
+// harness's allocator shim.  They do on the unchanged tree (bufiox and the io.Reader decoder allocate from the shared
+// pool, which the overlay replaces); a variant of the library that allocates with make() is just as correct, but then a
+// hostile declared size of 2 GiB really allocates and clears 2 GiB per case.  For such a variant inputs in which any 4-byte
+// window reads as more than 64 KiB are not run on that skipper (counted, reported in the evidence) instead of grinding the worker down.
+var allocInterceptedCache = map[string]bool{}
+
+func allocIntercepted(sk string) bool {
+	if v, ok := allocInterceptedCache[sk]; ok {
+		return v
+	}
+	enc := []byte{0x00, 0x01, 0x86, 0xa0, 'a', 'b', 'c', 'd'} // a string that declares 100000 bytes and delivers 4: the skipper has to get a buffer for it
+	m0, _, _, _, _ := mcache.VerifStats()
+	runSkipperOpt(sk, enc, ref.STRING, EnvCfg{Chunk: 1000}, false, false)
+	m1, _, _, _, _ := mcache.VerifStats()
+	allocInterceptedCache[sk] = m1 > m0
+	return m1 > m0
+}
+
+// anySizeFieldOver: some 4-byte big-endian window of b reads as a value above lim (whatever the parser takes for a
+// length or count, it is one of these windows).
+func anySizeFieldOver(b []byte, lim uint32) bool {
+	for i := 0; i+4 <= len(b); i++ {
+		if v := uint32(b[i])<<24 | uint32(b[i+1])<<16 | uint32(b[i+2])<<8 | uint32(b[i+3]); v > lim {
+			return true
+		}
+	}
+	return false
+}
+
 // skipCompare runs one skipper on one input and compares with the grammar reference.
 func skipCompare(c *mc.Ctx, prop string, input []byte, t int8, sk string, env EnvCfg, desc string, rr *ref.SkipResult) {
 	c.Eval(1)
@@ -44,6 +75,10 @@ func skipCompare(c *mc.Ctx, prop string, input []byte, t int8, sk string, env En
 		r = *rr
 	} else {
 		r = ref.Skip(input, t)
+	}
+	if (isStreamSkipper(sk) || sk == skBufBytes || sk == skDecBytesR) && !allocIntercepted(sk) && anySizeFieldOver(input, 1<<16) {
+		c.Count("not-run:possible-size-field-over-64KiB-and-allocations-of-this-skipper-bypass-the-shim", 1)
+		return
 	}
 	o := runSkipper(sk, input, t, env, false)
 	bad := func(class, format string, a ...interface{}) {
